@@ -1,0 +1,93 @@
+//go:build verif
+
+package blob
+
+// Contracts for govc, the contract verifier under /verif (see /verif/DESIGN.md).
+// This file contains comments only; it adds no code under any build tag.
+
+//@ spec inv(b *Bytes) := b != nil && b.mu != nil && b.length == len(b.bytes)
+//@ spec blobOK(x Blob) := x != nil && implies(isType(x, *Bytes), inv(x.(*Bytes)))
+//@ spec blobLen(x Blob) := ite(isType(x, *Bytes), len(x.(*Bytes).bytes), gint("blobLen", payload(x)))
+//@ spec blobAt(x Blob, i int) := ite(isType(x, *Bytes), x.(*Bytes).bytes[i], garr("blobAt", payload(x))[i])
+//@ spec blobLocked(x Blob) := isType(x, *Bytes) && held(x.(*Bytes).mu)
+
+//@ interface Blob.Len() (r int)
+//@   requires blobOK(self)
+//@   ensures "len" r == blobLen(self) && r >= 0
+//@   pure
+
+//@ interface Blob.Bytes() (r []byte)
+//@   requires blobOK(self)
+//@   requires "not-locked" !blobLocked(self)
+//@   ensures "copy" fresh(r) && len(r) == blobLen(self) && forall(i, 0, len(r), r[i] == old(blobAt(self, i)))
+
+//@ func NewBytes(buf []byte) (r *Bytes)
+//@   inline
+
+//@ func NewBytesLength(length int) (r *Bytes)
+//@   inline
+
+//@ func (b *Bytes) Len() (r int)
+//@   props C19
+//@   requires inv(b)
+//@   ensures "len" r == len(b.bytes)
+//@   pure
+//@   nopanic
+
+//@ func (b *Bytes) Bytes() (r []byte)
+//@   props C19
+//@   requires inv(b) && !held(b.mu)
+//@   ensures "copy" fresh(r) && len(r) == len(b.bytes) && forall(i, 0, len(r), r[i] == old(b.bytes[i]))
+//@   nopanic
+
+//@ func (b *Bytes) View(start, end int64) (r Blob, err error)
+//@   props C19
+//@   requires inv(b) && !held(b.mu)
+//@   ensures "range" iff(err == nil, 0 <= start && start <= end && end <= len(b.bytes))
+//@   ensures "alias" implies(err == nil, isType(r, *Bytes) && fresh(r.(*Bytes)) && inv(r.(*Bytes)) &&
+//@                      r.(*Bytes).bytes == old(b.bytes)[start:end] && r.(*Bytes).mu == b.mu)
+//@   ensures "nil-on-error" implies(err != nil, r == nil)
+//@   nopanic
+
+//@ func (b *Bytes) Slice(start, end int64) (r Blob, err error)
+//@   props C19
+//@   requires inv(b) && !held(b.mu)
+//@   ensures "range" iff(err == nil, 0 <= start && start <= end && end <= len(b.bytes))
+//@   ensures "copy" implies(err == nil, isType(r, *Bytes) && fresh(r.(*Bytes)) && inv(r.(*Bytes)) && fresh(r.(*Bytes).bytes) &&
+//@                     fresh(r.(*Bytes).mu) && !held(r.(*Bytes).mu) && len(r.(*Bytes).bytes) == end-start &&
+//@                     forall(i, 0, end-start, r.(*Bytes).bytes[i] == old(b.bytes[start+i])))
+//@   ensures "nil-on-error" implies(err != nil, r == nil)
+//@   nopanic
+
+//@ func (b *Bytes) Set(src Blob, destStart int64) (n int, err error)
+//@   props C19
+//@   requires inv(b) && !held(b.mu) && blobOK(src)
+//@   modifies elems(b.bytes)
+//@   ensures "range" implies(destStart < 0 || destStart > len(b.bytes), err != nil)
+//@   ensures "accepts" implies(0 <= destStart && destStart <= len(b.bytes) && !(len(b.bytes) == 0 && old(blobLen(src)) > 0), err == nil)
+//@   ensures "model" implies(err == nil, n == min(old(blobLen(src)), len(b.bytes) - destStart) &&
+//@                     forall(i, 0, n, b.bytes[destStart+i] == old(blobAt(src, i))))
+//@   ensures "rest" forall(k, int, implies(!(off(b.bytes)+destStart <= k && k < off(b.bytes)+destStart+n), raw(b.bytes, k) == old(raw(b.bytes, k))))
+//@   ensures "error-unchanged" implies(err != nil, n == 0 && forall(k, int, raw(b.bytes, k) == old(raw(b.bytes, k))))
+//@   nopanic
+
+//@ func (b *Bytes) Grow(offset int64) (err error)
+//@   props C19
+//@   requires inv(b) && !held(b.mu)
+//@   requires "size-bound" len(b.bytes) + offset <= 1<<40
+//@   modifies b.bytes, b.length, elems(b.bytes)
+//@   ensures "neg" implies(offset < 0, err != nil && b.bytes == old(b.bytes) && forall(k, int, raw(b.bytes, k) == old(raw(b.bytes, k))))
+//@   ensures "model" implies(offset >= 0, err == nil && len(b.bytes) == old(len(b.bytes)) + offset &&
+//@                     forall(i, 0, old(len(b.bytes)), b.bytes[i] == old(b.bytes[i])) &&
+//@                     forall(i, old(len(b.bytes)), len(b.bytes), b.bytes[i] == 0))
+//@   ensures "inv" inv(b)
+//@   nopanic
+
+//@ func (b *Bytes) Truncate(size int64) (err error)
+//@   props C19
+//@   requires inv(b) && !held(b.mu)
+//@   modifies b.bytes, b.length
+//@   ensures "neg" implies(size < 0, err != nil && b.bytes == old(b.bytes))
+//@   ensures "model" implies(size >= 0, err == nil && b.bytes == old(b.bytes)[0:min(size, old(len(b.bytes)))])
+//@   ensures "inv" inv(b)
+//@   nopanic
